@@ -33,6 +33,11 @@ def entry_points(kind):
             "nested-setitem": lambda x, v: (x.__setitem__("n", {}), x["n"].__setitem__("k", v)),
             "overwrite": lambda x, v: (x.__setitem__("k", alt(v)), x.__setitem__("k", v)),
             "update-over-lookalike": lambda x, v: (x.__setitem__("k", alt(v)), x.update({"k": v})),
+            # an existing non-empty container (or a long string) at the position, then the value through the in-place merge
+            "update-over-container": lambda x, v: (x.__setitem__("k", {"a": "x", "b": [1, 2]}), x.update({"k": v})),
+            "update-over-list": lambda x, v: (x.__setitem__("k", [1, [2], {"c": 3}]), x.update({"k": v})),
+            "reset-over-content": lambda x, v: (x.update({"old": {"a": [1, 2]}, "k": "y" * 64}), x.reset({"k": v})),
+            "setitem-after-long": lambda x, v: (x.__setitem__("k", "z" * 256), x.__setitem__("k", v)),
         }
     return {
         "append": lambda x, v: x.append(v),
@@ -45,6 +50,8 @@ def entry_points(kind):
         "ctor": None,
         "nested-append": lambda x, v: (x.append([]), x[0].append(v)),
         "reset-over-lookalike": lambda x, v: (x.append(alt(v)), x.reset([v])),
+        "reset-over-container": lambda x, v: (x.extend([{"a": "x", "b": [1, 2]}, "y" * 64, [3]]), x.reset([v])),
+        "setitem-over-container": lambda x, v: (x.append({"a": [1, 2], "s": "z" * 256}), x.__setitem__(0, v)),
     }
 
 
@@ -84,8 +91,11 @@ def check(cname, ep, i):
                 entry_points(kind)[ep](x, v)
         except Exception as e:      # noqa: BLE001
             return f"{ep}: a JSON value was rejected: {VALUES[i]!r} -> {type(e).__name__}: {e}"
-        fresh = res.new()
-        got = extract(fresh(), kind, ep)
+        try:
+            fresh = res.new()
+            got = extract(fresh(), kind, ep)
+        except Exception as e:      # noqa: BLE001
+            return f"{ep}: stored {VALUES[i]!r}, reading it back through a fresh object raises {type(e).__name__}: {e}"
         want = json.loads(json.dumps(VALUES[i]))
         if got != want:
             return f"{ep}: stored {VALUES[i]!r}, a fresh object reads {got!r}"
@@ -94,6 +104,22 @@ def check(cname, ep, i):
         return None
     finally:
         shutil.rmtree(tmp, ignore_errors=True)
+
+
+def plain_mode(cname):
+    """`nothreads`: the class's thread-safety layer switched off (plain in-place writes for the JSON back end)."""
+    import importlib
+    for mod in ("synced_collections.backends.collection_json", "synced_collections.backends.collection_redis",
+                "synced_collections.backends.collection_mongodb", "synced_collections.backends.collection_zarr"):
+        try:
+            m = importlib.import_module(mod)
+        except Exception:      # noqa: BLE001
+            continue
+        if hasattr(m, cname):
+            cls = getattr(m, cname)
+            if getattr(cls, "_supports_threading", False):
+                cls.disable_multithreading()
+            return
 
 
 def search(cname):
@@ -113,11 +139,18 @@ def search(cname):
 
 def main():
     if sys.argv[1] == "search":
-        print(json.dumps(search(sys.argv[2])))
+        if "nothreads" in sys.argv[3:]:
+            plain_mode(sys.argv[2])
+        r = search(sys.argv[2])
+        if r.get("found") and "nothreads" in sys.argv[3:]:
+            r["scenario"]["nothreads"] = True
+        print(json.dumps(r))
         return 0
     if sys.argv[1] == "run":
         sc = json.load(open(sys.argv[2]))
         sc = sc.get("scenario", sc)
+        if sc.get("nothreads"):
+            plain_mode(sc["class"])
         msg = check(sc["class"], sc["entry"], sc["value"])
         if msg:
             print("FAILS:", msg)
